@@ -115,6 +115,8 @@ func traces(f *core.Fn, g *core.Graph, cl classifier, limit int) ([]trace, bool)
 					switch {
 					case core.IsNil(info, res):
 						t.outcome = "ok"
+					case core.ObjOf(info, res) != nil && core.ObjOf(info, res).Parent() == core.ObjOf(info, res).Pkg().Scope():
+						t.outcome = "fail" // a package-level sentinel error
 					case core.ObjOf(info, res) != nil:
 						if tk, seen := t.errTaken[core.ObjOf(info, res)]; seen {
 							if tk {
